@@ -27,25 +27,27 @@ def mval(v: T.Any) -> str:
     return mstr(v)
 
 
-def run(chk: Check, space: T.Dict[str, T.Any], judge: T.Callable[..., None], account: T.Callable[..., None],
-        base: str) -> None:
+def run(chk: Check, space: T.Dict[str, T.Any], fspace: T.Dict[str, T.Any], judge: T.Callable[..., None],
+        account: T.Callable[..., None], base: str) -> None:
     from . import c14_template as m
     m._init_worker(base)     # this module sees its own copy of c14_template (the driver runs as __main__)
     common.use_repo_meson()
     quick = chk.tier == 'quick'
     rnd = random.Random(chk.seed * 611953 + 17)
     atoms = [m.txt(a) for a in space['atoms']]
+    batoms = [bytes(a) for a in fspace['batoms']]
     model_confs = [m.conf_values(c) for c in space['confs']]
     fams = m.families(quick)
+    ffams = m.file_families(quick)
     n_projects = 2 if quick else 8
-    per_project = 40
+    per_kind = 24
     cases: T.List[T.Dict[str, T.Any]] = []
     confs: T.List[T.Any] = []
     for pno in range(n_projects):
-        items = []   # (text, values, fmt, reject)
+        items: T.List[T.Dict[str, T.Any]] = []
         tries = 0
         rejecting = pno % 2 == 1    # every second project ends with one template that must be rejected
-        while len(items) < per_project and tries < 4000:
+        while len(items) < per_kind and tries < 4000:      # text templates, default encoding
             tries += 1
             if rnd.random() < 0.6:
                 _, atomsel, confsel, fmtsel, _, _ = rnd.choice(fams)
@@ -58,20 +60,43 @@ def run(chk: Check, space: T.Dict[str, T.Any], judge: T.Callable[..., None], acc
                 text = m._rand_template(rnd)
             e, _, _ = m.real_configure(text, values, fmt)
             if e == 0:
-                items.append((text, values, fmt, False))
+                items.append({'data': text.encode('utf-8'), 'values': values, 'fmt': fmt, 'en': 0, 'encname': '', 'reject': False})
+        tries = 0
+        while len(items) < 2 * per_kind and tries < 4000:  # byte templates with the encoding: argument
+            tries += 1
+            if rnd.random() < 0.5:
+                _, bytesel, encsel, confsel, fmtsel, _ = rnd.choice(ffams)
+                data = b''.join(batoms[rnd.choice(bytesel) - 1] for _ in range(rnd.randint(1, 6)))
+                ei = rnd.choice(encsel)
+                if ei == 6:
+                    data = b'\xff\xfe' + data
+                values = model_confs[rnd.choice(confsel) - 1]
+                fi = rnd.choice(fmtsel)
+            else:
+                data, ei, values, fi = m._rand_file_case(rnd)
+            name = m.enc_name(ei, tries)
+            e, _, _ = m.real_configure_bytes(data, values, m.FORMATS[fi - 1], name)
+            if e == 0:
+                items.append({'data': data, 'values': values, 'fmt': m.FORMATS[fi - 1], 'en': ei, 'encname': name, 'reject': False})
         if rejecting:
-            items.append(('ok @a@\n#mesondefine A B C\n', {'a': 'X'}, 'meson', True))
+            if (pno // 2 + chk.seed) % 2 == 0:
+                items.append({'data': b'ok @a@\n#mesondefine A B C\n', 'values': {'a': 'X'}, 'fmt': 'meson', 'en': 0, 'encname': '',
+                              'reject': True})
+            else:       # a byte that cp1252 does not define
+                items.append({'data': b'ok @a@ \x81\n', 'values': {'a': 'X'}, 'fmt': 'meson', 'en': 4, 'encname': 'cp1252',
+                              'reject': True})
         with scratch('c14cli-') as d:
             src = d / 'src'
             src.mkdir()
             lines = ["project('c14cli', meson_version : '>=1.1')"]
-            for n, (text, values, fmt, _) in enumerate(items):
-                (src / f't{n}.in').write_bytes(text.encode('utf-8'))
+            for n, it in enumerate(items):
+                (src / f't{n}.in').write_bytes(it['data'])
                 lines.append(f'c{n} = configuration_data()')
-                for k, v in values.items():
+                for k, v in it['values'].items():
                     lines.append(f'c{n}.set({mstr(k)}, {mval(v)})')
-                lines.append(f"configure_file(input : 't{n}.in', output : 'o{n}.txt', configuration : c{n}, format : '{fmt}')")
-                if n % 5 == 0 and all(' ' not in k for k in values):
+                enc = f", encoding : '{it['encname']}'" if it['en'] else ''
+                lines.append(f"configure_file(input : 't{n}.in', output : 'o{n}.txt', configuration : c{n}, format : '{it['fmt']}'{enc})")
+                if n % 5 == 0 and all(' ' not in k for k in it['values']) and not it['en']:
                     lines.append(f"configure_file(output : 'h{n}.h', configuration : c{n})")
             (src / 'meson.build').write_text('\n'.join(lines) + '\n', encoding='utf-8')
             try:
@@ -79,25 +104,32 @@ def run(chk: Check, space: T.Dict[str, T.Any], judge: T.Callable[..., None], acc
                                    stdout=subprocess.PIPE, stderr=subprocess.STDOUT, text=True, timeout=600, errors='replace')
             except subprocess.TimeoutExpired as ex:
                 raise MachineryError('meson setup timed out on the configure_file sample') from ex
-            if rejecting != (p.returncode != 0):
-                if p.returncode != 0:
-                    raise MachineryError('meson setup failed on templates that do_conf_file accepts:\n' + p.stdout[-2000:])
+            if not rejecting and p.returncode != 0:
+                raise MachineryError('meson setup failed on templates that do_conf_file accepts:\n' + p.stdout[-2000:])
             missing: T.Dict[str, T.List[str]] = {}
             for mm in re.finditer(r"The variable\(s\) (.*?) in the input file '([^']*)' are not present", p.stdout):
                 missing[mm.group(2).split('/')[-1]] = re.findall(r"'([^']*)'", mm.group(1))
-            for n, (text, values, fmt, reject) in enumerate(items):
-                confs.append(m.conf_entries(values))
+            for n, it in enumerate(items):
+                confs.append(m.conf_entries(it['values']))
                 ci = len(confs)
-                fi = m.FORMATS.index(fmt) + 1
+                fi = m.FORMATS.index(it['fmt']) + 1
                 out = d / 'b' / f'o{n}.txt'
-                if reject:
-                    cases.append({'t': m.cps(text), 'c': ci, 'f': fi, 'e': 1 if p.returncode != 0 and not out.exists() else 0,
-                                  'o': m.cps(out.read_bytes().decode('utf-8')) if out.exists() else [], 'm': [], 'via': 'configure_file'})
-                    continue
-                if not out.exists():
-                    raise MachineryError(f'configure_file produced no o{n}.txt:\n' + p.stdout[-1500:])
-                cases.append({'t': m.cps(text), 'c': ci, 'f': fi, 'e': 0, 'o': m.cps(out.read_bytes().decode('utf-8')),
-                              'm': sorted(m.cps(x) for x in missing.get(f't{n}.in', [])), 'via': 'configure_file'})
+                if it['reject']:
+                    e = 1 if p.returncode != 0 and not out.exists() else 0
+                    ob = list(out.read_bytes()) if out.exists() else []
+                    mis: T.List[T.List[int]] = []
+                else:
+                    if not out.exists():
+                        raise MachineryError(f'configure_file produced no o{n}.txt:\n' + p.stdout[-1500:])
+                    e = 0
+                    ob = list(out.read_bytes())
+                    mis = sorted(m.cps(x) for x in missing.get(f't{n}.in', []))
+                if it['en']:
+                    cases.append({'by': list(it['data']), 'en': it['en'], 'c': ci, 'f': fi, 'e': e, 'ob': ob, 'm': mis,
+                                  'via': 'configure_file'})
+                else:
+                    cases.append({'t': m.cps(it['data'].decode('utf-8')), 'c': ci, 'f': fi, 'e': e,
+                                  'o': m.cps(bytes(ob).decode('utf-8')), 'm': mis, 'via': 'configure_file'})
                 hdr = d / 'b' / f'h{n}.h'
                 if hdr.exists():
                     cases.append({'hd': m.project_header(hdr.read_bytes().decode('utf-8')), 'c': ci, 'via': 'configure_file'})
@@ -105,3 +137,4 @@ def run(chk: Check, space: T.Dict[str, T.Any], judge: T.Callable[..., None], acc
     judge(chk, cases, [], confs, 'CLI')
     chk.extra['cli_projects'] = n_projects
     chk.extra['cli_cases'] = len(cases)
+    chk.extra['cli_cases_with_encoding'] = sum(1 for c in cases if 'en' in c)
